@@ -363,10 +363,11 @@ func (w *World) alive(name string) bool {
 
 type metaProbe struct {
 	gen.MetaProcess
-	r      *rec
-	start  *vsched.Gate // Start() returns when this gate opens
-	onMsg  func(m *metaProbe, from gen.PID, msg any) error
-	onTerm func(reason error)
+	r           *rec
+	start       *vsched.Gate // Start() returns when this gate opens
+	onMsg       func(m *metaProbe, from gen.PID, msg any) error
+	onTerm      func(reason error)
+	startPanics bool // Start() panics when the gate opens instead of returning
 }
 
 func (m *metaProbe) enter(what string) {
@@ -396,6 +397,9 @@ func (m *metaProbe) Init(p gen.MetaProcess) error {
 }
 func (m *metaProbe) Start() error {
 	m.start.Wait()
+	if m.startPanics {
+		panic("boom in Start")
+	}
 	return nil
 }
 func (m *metaProbe) HandleMessage(from gen.PID, msg any) error {
